@@ -343,8 +343,43 @@ def run(prog, rep):
         return False
     upd_pairs = [c for c in walk_no_nested(ga) if isinstance(c, ast.Call) and isinstance(c.func, ast.Attribute) and c.func.attr == 'update'
                  and ast.unparse(c.func.value).endswith('.keep_nodes') and _trace_element(c)]
+    # an element remembered for the next round of traces is a connection point: pair[i] is the i-th hop of the trace it comes from
+    for c in walk_no_nested(ga):
+        if isinstance(c, ast.Call) and isinstance(c.func, ast.Attribute) and c.func.attr == 'add' and c.args and isinstance(c.args[0], ast.Subscript) and \
+                isinstance(c.args[0].value, ast.Name) and isinstance(c.args[0].slice, ast.Constant) and isinstance(c.args[0].slice.value, int):
+            pv, idx_ = c.args[0].value.id, c.args[0].slice.value
+            for l in [p_ for p_ in _ancestors(c, ga) if isinstance(p_, ast.For) and isinstance(p_.target, ast.Name) and p_.target.id == pv]:
+                it = l.iter
+                if isinstance(it, ast.Name):
+                    defs = [a for a in walk_no_nested(ga) if isinstance(a, ast.Assign) and any(isinstance(t, ast.Name) and t.id == it.id for t in a.targets)
+                            and a.lineno <= l.lineno]
+                    it = defs[-1].value if defs else it
+                if isinstance(it, ast.Call) and call_name(it) == 'get_first_and_second_neighbor':
+                    prs = schema.pairs_of_call(it, arm)
+                    lab = prs[idx_][1] if 0 <= idx_ < len(prs) else None
+                    rep.instance('R4', f'generate_adms: {norm(c, 50)} remembers hop {idx_} of trace {prs}: a {lab}')
+                    if lab != 'ConnectionPoint':
+                        rep.violation('R4', loc(mod, c), 'ABCARMPropertyGraph.generate_adms', f'{norm(c, 50)} remembers the {lab} of the trace, not the peer interface',
+                                      f'the elements remembered from the interface-link-interface trace are the starting points of the owner traces '
+                                      f'(service and its owner); hop {idx_} of {prs} is a {lab}, so the peer interface\'s service and owner are never '
+                                      f'traced and are deleted from the partition')
     if len(upd_pairs) < 3:
         rep.violation('R4', loc(mod, ga), 'ABCARMPropertyGraph.generate_adms', 'trace results not added to the keep set', 'traced elements must be kept')
+
+    # every node and every delegation type is visited: the cataloguing and rewriting loops are never left early
+    for fname in ('catalog_delegations', 'generate_adms'):
+        f_ = inline(prog, arm, arm.methods.get(fname), exclude=('_update_delegations_on_node', 'catalog_delegations'), depth=4) if fname == 'generate_adms' else arm.methods.get(fname)
+        if f_ is None:
+            raise AnalysisError(f'ABCARMPropertyGraph.{fname} vanished')
+        for l in [n for n in walk_no_nested(f_) if isinstance(n, ast.For)]:
+            early = [x for b_ in l.body for x in ast.walk(b_) if isinstance(x, (ast.Break, ast.Return))
+                     and not any(isinstance(p_, (ast.For, ast.While)) and p_ is not l for p_ in _ancestors(x, l))]
+            rep.instance('R2', f'{fname}: loop over {norm(l.iter, 50)} left early: {len(early)}')
+            for x in early:
+                rep.violation('R2', loc(mod, x), f'ABCARMPropertyGraph.{fname}', f'{type(x).__name__.lower()} inside the loop over {norm(l.iter, 50)}',
+                              f'the loop over {norm(l.iter, 50)} is abandoned at the first element that has nothing to contribute: the elements after it '
+                              f'(the other delegation type of the node, the remaining nodes) are never catalogued / rewritten, so delegated resources '
+                              f'are missing from their partition or keep entries of other delegations')
 
     # ---- R7: collections accumulated over a loop are accumulated, not overwritten ----
     rep.rule('R7', 'a collection that is initialised empty, filled inside a loop and read after it is accumulated (not reassigned) in the loop', floor=3)
